@@ -17,7 +17,7 @@ def run_rules(prop, tree=None, only_rule=None):
     mod = importlib.import_module('sa.rules.' + prop.lower())
     run = Run(prop, tree)
     run.only_rule = only_rule
-    mod.check(run)
+    run.guard(mod.check, run)
     if only_rule:
         run.findings = [f for f in run.findings if f.rule == only_rule]
     return run, mod
@@ -36,6 +36,10 @@ def check_one(prop, tier, seed, replay=None):
             from .selftest import runner
             selftest = runner.explore(prop, seed)
         code = finish(prop, run, tier, seed, t0, mod.EXPLANATION, selftest=selftest, write=not replay)
+        for e in run.analysis_errors:
+            print('ANALYSIS-ERROR %s: %s' % (prop, e))
+        if run.analysis_errors and code == 0:
+            code = 2      # nothing violated as far as the analysis got, but it could not decide everything
         n_ob = len(run.obligations)
         print('%s: %d obligations over %d rules, %d finding(s), tier=%s, %.2fs' %
               (prop, n_ob, len(run.rules), len(run.findings), tier, time.time() - t0))
